@@ -148,6 +148,27 @@ func runC09(c *Ctx) []Violation {
 		out = append(out, v)
 		break
 	}
+	if len(out) == 0 && c.T.Chance("c09.schema-delivery", 1, 4) {
+		// the schema, too, arrives through an io.Reader: the same schema bytes delivered under a
+		// drawn plan must give the same Schema (judged by the transcript it produces)
+		splan := simio.DrawPlan(c.T, w.Schema)
+		env.Apply()
+		srd := simio.NewReader(w.Schema, splan)
+		rd := simio.NewReader(w.Input, simio.Whole(len(w.Input)))
+		got := run.Drive(w, rd, run.Opts{SchemaRd: srd})
+		c.Count("schema.delivered-under-plan", 1)
+		c.Count("schema.reads", int64(srd.Stats.Reads))
+		c.Events += int64(len(got.Entries) + srd.Stats.Reads)
+		gk := got.Keys()
+		c.Ev("schema-plan", splan.Sig(), gk)
+		if d := run.FirstDiff(bk, gk); d >= 0 {
+			out = append(out, viol("C09.schema-delivery", fmt.Sprintf("%s: result #%d differs when the schema reader delivers the schema bytes as %s", w.Name, d+1, splan.Mode),
+				"world: "+w.Name,
+				"schema delivery plan: "+splan.String(),
+				"baseline (schema in one Read): "+run.ShowKey(bk, d),
+				"under the plan:                "+run.ShowKey(gk, d)))
+		}
+	}
 	if !c.Race {
 		// pool behaviour is part of the deterministic execution (plain build only: race builds drop pooled items at random)
 		c.Ev("node-id-counter", idr.VerifNodeIDCounter())
